@@ -331,6 +331,13 @@ def scn(params):
         down_ok = (lambda f: True) if raw else (lambda f: tunnelscn.est_down_frags(f, frag) <= lim(f))
         up_ok = (lambda f: True) if raw else (lambda f: tunnelscn.est_up_frags(f, cap) <= lim(f))
         ot = st["offer_time"]
+        if mode != "clean" and not raw and frag < 20:
+            # The client's autoprobe ended on a fragment size of a few bytes (it does on paths with a round trip of over two
+            # seconds while it starts up: every probe is answered after its three 1 s tries).  A packet then needs a dozen round
+            # trips, the offers of one per second pile up, and the 30 s bound would measure that backlog, not the recovery (M28).
+            out["inconclusive"] = "fragment-size-too-small-for-bounded-recovery"
+            out["stats"]["recover_runs_with_fragment_size_below_20"] = 1
+            return out
         if mode == "clean":
             # With a second session the server keeps reading its tun while only one session's queue is full, and then
             # drops what does not fit (documented behaviour of the 4-packet queue): losses downstream are judged only
